@@ -565,6 +565,12 @@ func amfGetFrom(a amf0.Amf0, k string) amf0.Amf0 {
 // between the steps. Every container, string and number that was ever put into the tree stays reachable to the
 // "application" and may be changed later, wherever it sits.
 func c05Incremental(c *h.Ctx) {
+	amfIncremental(c, func(stage string, root amf0.Amf0, nodes int) { c05Tree(c, stage, root, nodes) })
+}
+
+// amfIncremental builds a tree step by step (new properties anywhere, strings and numbers assigned in place) and calls
+// check after most steps and at the end.
+func amfIncremental(c *h.Ctx, check func(stage string, root amf0.Amf0, nodes int)) {
 	r := c.R
 	var root amf0.Amf0
 	switch r.Intn(3) {
@@ -630,8 +636,8 @@ func c05Incremental(c *h.Ctx) {
 			if len(conts) > 1 && r.Bool() {
 				_ = conts[r.Intn(len(conts))].val.Size()
 			}
-			c05Tree(c, fmt.Sprintf("incremental/step=%d", j), root, nodes)
+			check(fmt.Sprintf("incremental/step=%d", j), root, nodes)
 		}
 	}
-	c05Tree(c, "incremental/final", root, nodes)
+	check("incremental/final", root, nodes)
 }
